@@ -568,7 +568,7 @@ class Property:
             return False
         try:
             await self.get_value("/", resource, ET.Element(self.name), environ)
-        except KeyError:
+        except (KeyError, NotImplementedError):
             return False
         else:
             return True
